@@ -453,14 +453,98 @@ def with_signature(chk):
     chk.absorb(ex)
 
 
+def native_family(chk):
+    """authentic exchanges and their single mutations through the real verifier, signed by an independent
+    signer (replay kernel cup.verify).  Returns the list of cases whose outcome is not the specified one."""
+    o = chk.ob('authentic-iff-accepted-native', 'the real verify_response on concrete exchanges signed by an independent implementation of the protocol: every authentic exchange (plain / quoted / weak ETag, latest or historical key, empty bodies, nonces with small and large bytes) is accepted and its signature returned; every single mutation (other response / request body, nonce, key id, signing key, digest order or a missing component, a flipped signature or hash bit, a shortened or empty hash, an extra ETag field, a missing or unquoted-garbage ETag) is rejected without panic.  Confirms or refutes natively what the structural obligations find on the MIR.')
+    binary = common.build_replay('dev')
+    bases = []
+    for (req, resp, nonce, keys, kid, seed) in (
+            ([1, 2, 3], [9, 9], list(range(32)), [[7, 11], [5, 12]], 7, 11),
+            ([], [], [0] * 32, [[7, 11]], 7, 11),
+            (list(b'{"request":{}}'), list(b'{"response":{}}'), [0x0f, 0x10, 0x00, 0xff] * 8, [[9, 21], [5, 12], [6, 13]], 6, 13),
+            ([0xff] * 40, [0] * 70, [(i * 37 + 1) % 256 for i in range(32)], [[1, 31], [2, 32]], 2, 32)):
+        bases.append({'kernel': 'cup.verify', 'keys': keys, 'request_body': req, 'response_body': resp, 'nonce': nonce, 'key_id': kid, 'signed': {'seed': seed}})
+    cases = []
+    for b in bases:
+        for form in ('plain', 'quoted', 'weak'):
+            cases.append((dict(b, form=form), True, 'authentic, %s ETag' % form))
+        other_seed = 99
+        n2 = list(b['nonce'])
+        n2[3] ^= 0x10
+        muts = [
+            (dict(b, signed=dict(b['signed'], response_body=b['response_body'] + [1])), 'response body differs from the signed one'),
+            (dict(b, signed=dict(b['signed'], request_body=b['request_body'] + [1])), 'request body differs (hash and signature are over another request)'),
+            (dict(b, signed=dict(b['signed'], nonce=n2)), 'signed for another nonce'),
+            (dict(b, signed=dict(b['signed'], key_id=b['key_id'] + 1)), 'signed for another key id'),
+            (dict(b, signed=dict(b['signed'], seed=other_seed)), 'signed with a key that is not registered'),
+            (dict(b, signed=dict(b['signed'], order=['resp', 'req', 'param'])), 'digest composed in another order'),
+            (dict(b, signed=dict(b['signed'], order=['req', 'param', 'resp'])), 'digest composed in another order (param in the middle)'),
+            (dict(b, signed=dict(b['signed'], order=['req', 'param'])), 'digest without the response hash'),
+            (dict(b, signed=dict(b['signed'], order=['resp', 'param'])), 'digest without the request hash'),
+            (dict(b, signed=dict(b['signed'], order=['req', 'resp'])), 'digest without key id and nonce'),
+            (dict(b, flip_sig_bit=77), 'one signature bit flipped'),
+            (dict(b, flip_hash_bit=5), 'one request-hash bit flipped'),
+            (dict(b, truncate_hash=16), 'request hash shortened to a prefix'),
+            (dict(b, truncate_hash=0), 'request hash empty'),
+            (dict(b, suffix=':'), 'a third, empty ETag field'),
+            (dict(b, suffix=':00'), 'a third ETag field'),
+            (dict(b, suffix='0'), 'trailing garbage after the hash'),
+            (dict(b, no_etag=True), 'no ETag'),
+            (dict(b, form='raw', raw_etag='"'), 'ETag is a lone quote'),
+            (dict(b, form='raw', raw_etag='W/"'), 'ETag is W/"'),
+            (dict(b, form='raw', raw_etag=':'), 'ETag is a lone colon'),
+        ]
+        if len(b['keys']) > 1:
+            # signed with another *registered* key than the one the request named
+            other = [k for k in b['keys'] if k[0] != b['key_id']][0]
+            muts.append((dict(b, signed=dict(b['signed'], seed=other[1])), 'signed with another registered key than the one named in the request'))
+        for c, what in muts:
+            if b['request_body'] == b['response_body'] and c['signed'].get('order') in (['resp', 'req', 'param'],):
+                continue        # the two hashes coincide: the swapped digest is the authentic one
+            cases.append((c, False, what))
+    reps = common.run_replay_batch(binary, [c for c, _, _ in cases])
+    bad = []
+    for (c, want, what), r in zip(cases, reps):
+        if r.get('panic') is not None:
+            bad.append((what, 'panic: %s' % str(r.get('panic'))[:120], c))
+        elif r.get('accepted') != want:
+            bad.append((what, 'accepted' if r.get('accepted') else 'rejected (%s)' % r.get('error'), c))
+        elif want and not r.get('returned_signature_is_the_one_sent'):
+            bad.append((what, 'accepted but another signature returned', c))
+    chk.validated += len(cases)
+    chk.extra['native_exchanges'] = len(cases)
+    if bad:
+        o.status = 'violated'
+        o.key = o.name
+        o.detail = '%s: %s [%d of %d exchanges off]' % (bad[0][0], bad[0][1], len(bad), len(cases))
+        o.cex = {'exchange': bad[0][2], 'others': [(w, g) for w, g, _ in bad[1:6]]}
+        o.replayed = {'native': 'cup.verify kernel on the real StandardCupv2Handler', 'observed': bad[0][1]}
+    else:
+        o.status = 'holds'
+        o.detail = '%d exchanges behave as specified' % len(cases)
+    return bad
+
+
 def run(chk):
     nbytes = 8 if chk.tier == 'quick' else 12
+    nat_bad = native_family(chk)
     parse_etag(chk, nbytes)
     verify_structure(chk)
     with_signature(chk)
     key_map(chk)
     import c03
     c03.nonce_obligations(chk, which=('nonce-display',))     # the "<key id>:<nonce hex>" part of the signed digest
+    # a deviation from the recognised call structure alone is not a verdict (an equivalent implementation may
+    # look different): it stands as a violation only when the real verifier also misbehaves on a concrete exchange
+    for o in chk.obligations:
+        if o.name in ('verify-response-structure', 'signature-check-structure') and o.status == 'violated':
+            if nat_bad:
+                o.detail = '%s  [natively: %s: %s]' % (o.detail, nat_bad[0][0], nat_bad[0][1])
+                o.replayed = {'native': 'cup.verify kernel', 'exchange': nat_bad[0][2]}
+            else:
+                o.status = 'inconclusive'
+                o.detail = 'the code deviates from the recognised structure (%s) but the real verifier treats all %d concrete exchanges as specified: not decided' % (o.detail, chk.extra.get('native_exchanges', 0))
     chk.bounds.update({'etag bytes (parse_etag)': nbytes})
     chk.assumptions += [
         'SHA-256, hex decoding, DER parsing and ECDSA verification (sha2, hex, ecdsa/p256 crates) are abstract events: the check decides which values flow into which primitive and how each outcome maps to accept / error class, not the primitives themselves; injectivity of the hash is not assumed',
